@@ -120,7 +120,8 @@ def run_property(prop: str, tier: str = "quick", seed: int = 0) -> int:
     vcs = [r for r in results if r["kind"] == "vc"]
     proved = [r for r in vcs if r["status"] == "proved"]
     refuted = [r for r in vcs if r["status"] == "refuted"]
-    undecided = [r for r in results if r["status"] == "undecided"]
+    undecided = [r for r in results if r["status"] == "undecided" and r["kind"] == "vc"]
+    guards_inconclusive = [r["name"] for r in results if r["status"] == "undecided" and r["kind"] != "vc"]
     engine_err = [r for r in results if r["status"] == "engine_error"]
     guards = [r for r in results if r["kind"] in ("canary", "vacuity")]
 
@@ -220,7 +221,7 @@ def run_property(prop: str, tier: str = "quick", seed: int = 0) -> int:
         "refuted_known": len(refuted) - len([v for v in violations if v["obligation"] in {r["name"] for r in refuted}]),
         "undecided": [r["name"] + (": " + r.get("error", "") if r.get("error") else "") for r in undecided],
         "engine_errors": [r["name"] + ": " + r.get("error", r.get("solver_result", "")) for r in engine_err],
-        "guards": {"total": len(guards), "ok": len([g for g in guards if g["status"] == "ok"])},
+        "guards": {"total": len(guards), "ok": len([g for g in guards if g["status"] == "ok"]), "inconclusive": guards_inconclusive},
         "by_backend": per_backend,
         "solver_time_s": solver_time,
         "checker_cmd": f"./check {prop} --tier {tier}",
